@@ -831,6 +831,39 @@ func rulePOS1(c *Ctx) {
 			return ok && len(as.Lhs) == 1 && strings.HasSuffix(w.Src(as.Lhs[0]), ".curFrame") && strings.Contains(w.Src(as.Rhs[0]), "framesIndex-1]")
 		})
 	})
+	// one line per active call: every turn of the walk adds its frame's
+	// location - unconditionally, with no way round it
+	everyFrame := false
+	ast.Inspect(run.Body, func(nd ast.Node) bool {
+		fs, ok := nd.(*ast.ForStmt)
+		if !ok || fs.Cond == nil {
+			return true
+		}
+		b, ok := gtExpr(fs.Cond)
+		if !ok || b.Op != token.GTR {
+			return true
+		}
+		if f, _ := FieldSel(p, b.X); f == nil || f.Name() != "framesIndex" {
+			return true
+		}
+		skips := containsNode(fs.Body, func(m ast.Node) bool {
+			br, ok := m.(*ast.BranchStmt)
+			return ok && (br.Tok == token.CONTINUE || br.Tok == token.BREAK || br.Tok == token.GOTO)
+		})
+		adds := false
+		for _, st := range fs.Body.List {
+			as, ok := st.(*ast.AssignStmt)
+			if !ok || len(as.Rhs) != 1 {
+				continue
+			}
+			if call, ok := ast.Unparen(as.Rhs[0]).(*ast.CallExpr); ok && FuncFullName(Callee(p, call)) == "fmt.Errorf" {
+				adds = true
+			}
+		}
+		everyFrame = adds && !skips
+		return true
+	})
+	c.check(everyFrame, "POS.1/trace-line-per-frame", run, "every frame walked adds its location to the trace", "the trace loop does not add a location for every active call (the line is added under a condition, or a turn of the loop can be skipped): calls made from one site collapse or disappear from the trace")
 	c.check(loopOK, "POS.1/trace-walk", run, "walks frames innermost first down to the main frame", "the trace loop in Run does not walk `framesIndex > 1`, decrementing and reading frame framesIndex-1")
 }
 
